@@ -39,6 +39,8 @@ impl FeoxStore {
 
         let key_vec = new_record.key.clone();
 
+        #[cfg(feature = "verif")]
+        crate::verif::sched("update.before_entry", 0, 0);
         let old_record_arc = match self.hash_table.entry(key_vec.clone()) {
             scc::hash_map::Entry::Occupied(mut entry) => {
                 let old_record_arc = Arc::clone(entry.get());
@@ -82,6 +84,8 @@ impl FeoxStore {
                 }
             }
 
+            #[cfg(feature = "verif")]
+            crate::verif::sched("update.before_enqueue", 0, 0);
             if let Some(ref wb) = self.write_buffer {
                 wb.add_replacement(new_record, old_record_arc)?;
             }
@@ -118,6 +122,8 @@ impl FeoxStore {
 
         let key_vec = new_record.key.clone();
 
+        #[cfg(feature = "verif")]
+        crate::verif::sched("update.before_entry", 0, 0);
         let old_record_arc = match self.hash_table.entry(key_vec.clone()) {
             scc::hash_map::Entry::Occupied(mut entry) => {
                 let old_record_arc = Arc::clone(entry.get());
@@ -161,6 +167,8 @@ impl FeoxStore {
                 }
             }
 
+            #[cfg(feature = "verif")]
+            crate::verif::sched("update.before_enqueue", 0, 0);
             if let Some(ref wb) = self.write_buffer {
                 wb.add_replacement(new_record, old_record_arc)?;
             }
